@@ -37,6 +37,16 @@ static void pr(const Vec6& v) { for (int i=0;i<6;++i) pr(v[i]); }
 static void pr(const Transform& X) { for (int i=0;i<3;++i) for (int j=0;j<3;++j) pr(X.R()[i][j]); pr(X.p()); }
 static void bar() { std::printf("| "); }
 
+// power delivered at s and central difference of the reported PE along the motion (q +- h qdot); used by C12
+template<class SYS> static void fdSection(SYS& S, const State& s, const Force& F, const Vector_<SpatialVec>& bf, const Vector& mf) {
+    Real P = ~mf * s.getU();
+    for (int i=0;i<(int)S.b.size();++i) P += ~bf[i][0]*S.b[i].getBodyAngularVelocity(s) + ~bf[i][1]*S.b[i].getBodyOriginVelocity(s);
+    const Real h = 1e-6; State sp=s, sm=s; sp.updQ() += h*s.getQDot(); sm.updQ() -= h*s.getQDot();
+    S.sys.realize(sp, Stage::Dynamics); S.sys.realize(sm, Stage::Dynamics);
+    const Real dPE = (F.calcPotentialEnergyContribution(sp) - F.calcPotentialEnergyContribution(sm)) / (2*h);
+    pr(P); pr(dPE);
+}
+
 struct SysA {
     MultibodySystem sys; SimbodyMatterSubsystem matter; GeneralForceSubsystem forces;
     std::vector<MobilizedBody> b; Real mass[4]; Vec3 com[4];
@@ -78,7 +88,8 @@ static void outA(SysA& S, const State& s, const Force& F) {
     for (int i=0;i<nu;++i) pr(mf[i]); bar();
     pr(pe); bar();
     for (int i=0;i<nu;++i) pr(s.getU()[i]); bar();
-    pr((Real)pf.size());
+    pr((Real)pf.size()); bar();
+    fdSection(S, s, F, bf, mf);
     std::printf("\n");
 }
 
@@ -117,7 +128,8 @@ static void outB(SysB& S, const State& s, const Force& F, int body, int which) {
     pr((Real)(int(S.b[body].getFirstUIndex(s)) + which)); pr((Real)(int(S.b[body].getFirstQIndex(s)) + which)); bar();
     for (int i=0;i<nu;++i) pr(mf[i]); bar();
     Real sum=0; for (int i=0;i<nb;++i) sum += bf[i][0].norm() + bf[i][1].norm(); pr(sum); bar();
-    pr(pe);
+    pr(pe); bar();
+    fdSection(S, s, F, bf, mf);
     std::printf("\n");
 }
 
@@ -154,6 +166,34 @@ static void one(const std::string& k) {
         else if (k=="MCF") { Real f=nx(); F=Force::MobilityConstantForce(S.forces,S.b[b],MobilizerUIndex(w),f); }
         else { Real kk=nx(), d=nx(), lo=nx(), hi=nx(); F=Force::MobilityLinearStop(S.forces,S.b[b],MobilizerQIndex(w),kk,d,lo,hi); }
         State s=S.init(); outB(S,s,F,b,w); return;
+    }
+    if (k=="WIT") { // the Coq witnesses of C12's *_dissipation_sign_refuted theorems, on the real elements
+        MultibodySystem sys; SimbodyMatterSubsystem matter(sys); GeneralForceSubsystem forces(sys);
+        Body::Rigid body(MassProperties(1, Vec3(0), Inertia(1)));
+        MobilizedBody::Free fb(matter.Ground(), Transform(), body, Transform());
+        MobilizedBody::Slider sl(matter.Ground(), Transform(), body, Transform());
+        Force::TwoPointConstantForce tpc(forces, matter.Ground(), Vec3(0), fb, Vec3(0), 1.0);
+        Force::ConstantForce cf(forces, fb, Vec3(0), Vec3(1,0,0));
+        Force::ConstantTorque ct(forces, fb, Vec3(1,0,0));
+        Force::MobilityConstantForce mcf(forces, sl, MobilizerUIndex(0), 1.0);
+        State s0 = sys.realizeTopology(); sys.realizeModel(s0);
+        std::printf("OK | ");
+        for (int w=0; w<4; ++w) {
+            State s = s0;
+            const Force& F = w==0 ? (const Force&)tpc : w==1 ? (const Force&)cf : w==2 ? (const Force&)ct : (const Force&)mcf;
+            if (w==0) { fb.setQToFitTranslation(s, Vec3(1,0,0)); fb.setUToFitLinearVelocity(s, Vec3(1,0,0)); }
+            if (w==1) { fb.setUToFitLinearVelocity(s, Vec3(1,0,0)); }
+            if (w==2) { fb.setUToFitAngularVelocity(s, Vec3(1,0,0)); }
+            if (w==3) { sl.setOneU(s, 0, 1.0); }
+            sys.realize(s, Stage::Dynamics);
+            Vector_<SpatialVec> bf; Vector_<Vec3> pf; Vector mf; F.calcForceContribution(s, bf, pf, mf);
+            Real P = ~mf * s.getU();
+            for (MobilizedBodyIndex b(0); b<matter.getNumBodies(); ++b)
+                P += ~bf[b][0]*matter.getMobilizedBody(b).getBodyAngularVelocity(s) + ~bf[b][1]*matter.getMobilizedBody(b).getBodyOriginVelocity(s);
+            State s2 = s; s2.updQ() += 0.1*s.getQDot(); sys.realize(s2, Stage::Dynamics);
+            pr(P); pr(F.calcPotentialEnergyContribution(s)); pr(F.calcPotentialEnergyContribution(s2)); bar();
+        }
+        std::printf("\n"); return;
     }
     std::printf("?unknown %s\n", k.c_str());
 }
